@@ -2347,19 +2347,23 @@ func c13Snip(c *Ctx) {
 	fname := FuncName(fn)
 	pos := P.Pos(fn.Pos())
 	text, height, ellipsis := ssa.Value(fn.Params[0]), ssa.Value(fn.Params[2]), ssa.Value(fn.Params[3])
-	// the loop
+	// the loop: the one that carries a slice of strings round
 	var H *ssa.BasicBlock
 	nLoops := 0
-	for _, b := range fn.Blocks {
-		for _, p := range b.Preds {
-			if b.Dominates(p) {
+	for b := range loopHeads(fn) {
+		for _, in := range b.Instrs {
+			ph, ok := in.(*ssa.Phi)
+			if !ok {
+				break
+			}
+			if sl, ok := ph.Type().Underlying().(*types.Slice); ok && isStringType(sl.Elem()) {
 				H = b
 				nLoops++
 				break
 			}
 		}
 	}
-	if !c.check(nLoops == 1, fname+"/snip-loop", pos, fname, "one loop", fmt.Sprintf("%d loops in Snip where one walk over the lines is expected: that at most `height` lines forming a prefix of the text are returned cannot be established", nLoops)) {
+	if !c.check(nLoops == 1, fname+"/snip-loop", pos, fname, "one loop collects lines", fmt.Sprintf("%d loops in Snip collect lines where one walk over the lines is expected: that at most `height` lines forming a prefix of the text are returned cannot be established", nLoops)) {
 		return
 	}
 	var entry *ssa.BasicBlock
@@ -2405,6 +2409,40 @@ func c13Snip(c *Ctx) {
 	if lines == nil {
 		return
 	}
+	collapseFn := P.FuncOpt("servitor/ansi", "collapse")
+	// the line kept in a trip: collapse(expand(lines[i])) or collapse(expand(lines[i])[:len-k])
+	lineOfTrip := func(lc *lcPath, e ssa.Value, iPre linForm) (bool, string) {
+		cc, okC := lc.at(e).(*ssa.Call)
+		if !okC || cc.Call.StaticCallee() != collapseFn || collapseFn == nil {
+			return false, "the line added is not collapse(…) of matches"
+		}
+		m := lc.at(cc.Call.Args[0])
+		if sl, isSl := m.(*ssa.Slice); isSl {
+			// only the tail may be cut: [:len(x)-k]
+			if sl.Low != nil {
+				return false, "the front of a line is cut off"
+			}
+			m = lc.at(sl.X)
+		}
+		ec, okX := m.(*ssa.Call)
+		if !okX || ec.Call.StaticCallee() == nil || ec.Call.StaticCallee().Name() != "expand" {
+			return false, "the line added does not come from expand"
+		}
+		ld, okL := ec.Call.Args[0].(*ssa.UnOp)
+		var ia *ssa.IndexAddr
+		if okL {
+			ia, _ = ld.X.(*ssa.IndexAddr)
+		}
+		if ia == nil || unwrapLoad(ia.X) != lines || !lc.proveEq(lc.num(ia.Index).add(iPre, -1)) {
+			return false, "the line added is not lines[i] of the text"
+		}
+		return true, ""
+	}
+	if c13SnipRunsForward(P, fn, H, idx) {
+		c13SnipForward(c, fn, H, entry, idx, kept, lines, height, lineOfTrip)
+		c13SnipResult(c, fn, kept, ellipsis)
+		return
+	}
 	// (a) on entry: i = h-1 with h <= height and h <= len(lines), nothing kept
 	symH := newLin()
 	symH.coef["snip:h"] = 1
@@ -2416,6 +2454,7 @@ func c13Snip(c *Ctx) {
 			continue
 		}
 		lc := newLcPath(P, fn, pf)
+		lc.opaqueLoops(H)
 		lc.useFacts()
 		i0 := lc.num(edgeOf(idx, entry))
 		k0, okK := lenOfSlice(lc, edgeOf(kept, entry), 0)
@@ -2437,7 +2476,6 @@ func c13Snip(c *Ctx) {
 	if !c.check(complete && len(loopPaths) > 0, fname+"/snip-paths", pos, fname, fmt.Sprintf("%d paths round the loop", len(loopPaths)), "the paths round Snip's loop could not be enumerated") {
 		return
 	}
-	collapseFn := P.FuncOpt("servitor/ansi", "collapse")
 	for pi, pf := range loopPaths {
 		blocks := pf.blocks[:len(pf.blocks)-1]
 		last := blocks[len(blocks)-1]
@@ -2462,33 +2500,7 @@ func c13Snip(c *Ctx) {
 			} else if elems, okE := variadicElements(call.Call.Args[0]); !okE || len(elems) != 1 {
 				shapeOK, why = false, "not exactly one line is added"
 			} else {
-				// collapse(expand(lines[i])) or collapse(expand(lines[i])[:len-1])
-				cc, okC := lc.at(elems[0]).(*ssa.Call)
-				if !okC || cc.Call.StaticCallee() != collapseFn || collapseFn == nil {
-					shapeOK, why = false, "the line added is not collapse(…) of matches"
-				} else {
-					m := lc.at(cc.Call.Args[0])
-					if sl, isSl := m.(*ssa.Slice); isSl {
-						// only the tail may be cut: [:len(x)-k]
-						if sl.Low != nil {
-							shapeOK, why = false, "the front of a line is cut off"
-						}
-						m = lc.at(sl.X)
-					}
-					ec, okX := m.(*ssa.Call)
-					if shapeOK && (!okX || ec.Call.StaticCallee() == nil || ec.Call.StaticCallee().Name() != "expand") {
-						shapeOK, why = false, "the line added does not come from expand"
-					} else if shapeOK {
-						ld, okL := ec.Call.Args[0].(*ssa.UnOp)
-						var ia *ssa.IndexAddr
-						if okL {
-							ia, _ = ld.X.(*ssa.IndexAddr)
-						}
-						if ia == nil || unwrapLoad(ia.X) != lines || !lc.proveEq(lc.num(ia.Index).add(iPre, -1)) {
-							shapeOK, why = false, "the line added is not lines[i] of the text"
-						}
-					}
-				}
+				shapeOK, why = lineOfTrip(lc, elems[0], iPre)
 			}
 		} else {
 			// nothing kept in this trip: only while nothing has been kept at all
@@ -2500,7 +2512,34 @@ func c13Snip(c *Ctx) {
 		_ = grown
 		c.check(stepOK && shapeOK, fmt.Sprintf("%s/snip-trip#%d", fname, pi), pos, fname, "the index drops by one; lines[i] (or nothing, while nothing is kept yet) goes in front of the kept lines ("+where+")", "Snip: "+map[bool]string{true: why, false: "the index does not drop by exactly one"}[stepOK]+" ("+where+")")
 	}
-	// (c) the result: Join(kept, "\n") [+ ellipsis]
+	c13SnipResult(c, fn, kept, ellipsis)
+	// ellipses handed in are constants without a line feed
+	for _, e := range P.Callers(fn) {
+		if e.Site == nil {
+			continue
+		}
+		arg := e.Site.Common().Args[3]
+		// a constant, possibly coloured by the style layer (which adds no line feed: C14)
+		for d := 0; d < 3; d++ {
+			call, isCall := arg.(*ssa.Call)
+			if !isCall {
+				break
+			}
+			sc := call.Call.StaticCallee()
+			if sc == nil || sc.Pkg == nil || sc.Pkg.Pkg.Path() != "servitor/style" || len(call.Call.Args) != 1 {
+				break
+			}
+			arg = call.Call.Args[0]
+		}
+		s, ok := constString(arg)
+		c.check(ok && !strings.Contains(s, "\n"), FuncName(e.Caller.Func)+"/snip-ellipsis", P.InstrPos(e.Site), FuncName(e.Caller.Func), "the ellipsis is a constant without a line feed", "the ellipsis handed to Snip may contain a line feed: the result would have more lines than asked for")
+	}
+}
+
+// (c) of R7: the result is Join(kept, "\n") [+ ellipsis]
+func c13SnipResult(c *Ctx, fn *ssa.Function, kept *ssa.Phi, ellipsis ssa.Value) {
+	P := c.P
+	fname := FuncName(fn)
 	eachInstr(fn, func(_ *ssa.BasicBlock, _ int, in ssa.Instruction) {
 		ret, ok := in.(*ssa.Return)
 		if !ok || len(ret.Results) != 1 {
@@ -2538,25 +2577,4 @@ func c13Snip(c *Ctx) {
 		walk(ret.Results[0], 0)
 		c.check(okRes, fname+"/snip-result", P.InstrPos(ret), fname, "the kept lines joined with line feeds, plus possibly the ellipsis", "Snip returns something else than the kept lines joined with line feeds and, at most, the ellipsis behind them")
 	})
-	// ellipses handed in are constants without a line feed
-	for _, e := range P.Callers(fn) {
-		if e.Site == nil {
-			continue
-		}
-		arg := e.Site.Common().Args[3]
-		// a constant, possibly coloured by the style layer (which adds no line feed: C14)
-		for d := 0; d < 3; d++ {
-			call, isCall := arg.(*ssa.Call)
-			if !isCall {
-				break
-			}
-			sc := call.Call.StaticCallee()
-			if sc == nil || sc.Pkg == nil || sc.Pkg.Pkg.Path() != "servitor/style" || len(call.Call.Args) != 1 {
-				break
-			}
-			arg = call.Call.Args[0]
-		}
-		s, ok := constString(arg)
-		c.check(ok && !strings.Contains(s, "\n"), FuncName(e.Caller.Func)+"/snip-ellipsis", P.InstrPos(e.Site), FuncName(e.Caller.Func), "the ellipsis is a constant without a line feed", "the ellipsis handed to Snip may contain a line feed: the result would have more lines than asked for")
-	}
 }
